@@ -143,6 +143,10 @@ def ring_job(kind, k, n, m, b, strat, workers=4):
     G = graph.Graph(g.emitted)
     res = graph.cover(G, G.roots()[0], lambda: PrioAdapter(kind, n, k), step, project)
     out["edges"] = res["edges_tested"]
+    # histories on one live object (no cloning between calls): state the projection does not show must not matter
+    wres = graph.walks(G, G.roots()[0], lambda: PrioAdapter(kind, n, k), step, project, n=16, max_len=3 * m, seed=n * 31 + m)
+    out["edges"] += wres["walks"]
+    res["violations"] += wres["violations"]
     out["nontrivial"] = sum(1 for kk, es in G.out.items() for e in es if G.state[kk]["cnt"] > 0)
     cls = {"LAP": "LAP", "PER": "PrioritizedReplayBuffer"}[kind] + ("[multi-task]" if k > 1 else "")
     for v in res["violations"]:
